@@ -904,3 +904,109 @@ Proof.
     split; [apply Z.div_unique with r0; [left; lia|exact EQ]|apply Z.mod_unique with (q1 * W + q0); [left; lia|exact EQ]].
 Qed.
 
+
+(* ------------------------------------------------------------------ *)
+
+Lemma testbit_split A1 a0 i : 0 <= a0 < W -> 0 <= A1 -> 0 <= i ->
+  Z.testbit (A1 * W + a0) i = if i <? 64 then Z.testbit a0 i else Z.testbit A1 (i - 64).
+Proof.
+  intros Ha HA Hi. rewrite W_pow. rewrite <- lor_disjoint_add by (first [lia | rewrite <- W_pow; lia]).
+  rewrite Z.lor_spec. destruct (i <? 64) eqn:E.
+  - apply Z.ltb_lt in E. rewrite Z.mul_pow2_bits_low by lia. reflexivity.
+  - apply Z.ltb_ge in E. rewrite Z.mul_pow2_bits by lia.
+    replace a0 with (a0 mod 2^64) by (apply Z.mod_small; rewrite <- W_pow; lia).
+    rewrite Z.mod_pow2_bits_high by lia. apply orb_false_r.
+Qed.
+
+Section Bitwise.
+Variable op : Z -> Z -> Z.
+Variable f : bool -> bool -> bool.
+Hypothesis op_spec : forall a b n, Z.testbit (op a b) n = f (Z.testbit a n) (Z.testbit b n).
+Hypothesis f_ff : f false false = false.
+
+Lemma op_nonneg a b : 0 <= a -> 0 <= b -> 0 <= op a b.
+Proof.
+  intros Ha Hb. destruct (Z.neg_nonneg_cases (op a b)) as [N|]; [|assumption]. exfalso.
+  apply Z.bits_iff_neg_ex in N. destruct N as [k Hk].
+  destruct (Z.bits_iff_nonneg_ex a) as [Xa _]. destruct (Z.bits_iff_nonneg_ex b) as [Xb _].
+  destruct (Xa Ha) as [ka Hka]. destruct (Xb Hb) as [kb Hkb].
+  set (m := Z.max k (Z.max ka kb) + 1).
+  specialize (Hk m ltac:(lia)). rewrite op_spec, (Hka m), (Hkb m) in Hk by lia. congruence.
+Qed.
+Lemma op_small a b : 0 <= a < W -> 0 <= b < W -> 0 <= op a b < W.
+Proof.
+  intros Ha Hb. split; [apply op_nonneg; lia|].
+  assert (N : 0 <= op a b) by (apply op_nonneg; lia).
+  destruct (Z.eq_dec (op a b) 0) as [->|NZ]; [apply W_pos|].
+  rewrite W_pow. apply Z.log2_lt_pow2; [lia|].
+  destruct (Z.lt_ge_cases (Z.log2 (op a b)) 64) as [|G]; [assumption|]. exfalso.
+  pose proof (Z.bit_log2 (op a b) ltac:(lia)) as B. rewrite op_spec in B. set (k := Z.log2 (op a b)) in *.
+  replace a with (a mod 2^64) in B by (apply Z.mod_small; rewrite <- W_pow; lia).
+  replace b with (b mod 2^64) in B by (apply Z.mod_small; rewrite <- W_pow; lia).
+  rewrite !Z.mod_pow2_bits_high in B by lia. congruence.
+Qed.
+Lemma op_split A1 a0 B1 b0 : 0 <= a0 < W -> 0 <= b0 < W -> 0 <= A1 -> 0 <= B1 ->
+  op (A1 * W + a0) (B1 * W + b0) = op A1 B1 * W + op a0 b0.
+Proof.
+  intros Ha Hb HA HB. apply Z.bits_inj'. intros i Hi.
+  rewrite op_spec.
+  rewrite (testbit_split A1 a0 i Ha HA Hi), (testbit_split B1 b0 i Hb HB Hi).
+  rewrite (testbit_split (op A1 B1) (op a0 b0) i (op_small _ _ Ha Hb) (op_nonneg _ _ HA HB) Hi).
+  destruct (i <? 64); symmetry; apply op_spec.
+Qed.
+
+Lemma op128 u v : wf128 u -> wf128 v ->
+  wf128 (mk128 (op (h1 u) (h1 v)) (op (h0 u) (h0 v))) /\
+  val128 (mk128 (op (h1 u) (h1 v)) (op (h0 u) (h0 v))) = op (val128 u) (val128 v).
+Proof.
+  destruct u as [a1 a0], v as [b1 b0]. unfold wf128, val128; cbn [h1 h0]. intros [Ha1 Ha0] [Hb1 Hb0].
+  split; [split; apply op_small; assumption|]. rewrite op_split by lia. reflexivity.
+Qed.
+Lemma op256 u v : wf256 u -> wf256 v ->
+  let r := mk256 (op (q3 u) (q3 v)) (op (q2 u) (q2 v)) (op (q1 u) (q1 v)) (op (q0 u) (q0 v)) in
+  wf256 r /\ val256 r = op (val256 u) (val256 v).
+Proof.
+  destruct u as [a3 a2 a1 a0], v as [b3 b2 b1 b0]. unfold wf256, val256; cbn [q0 q1 q2 q3].
+  intros (Ha3 & Ha2 & Ha1 & Ha0) (Hb3 & Hb2 & Hb1 & Hb0). pose proof W_pos.
+  split; [repeat split; apply op_small; assumption|].
+  rewrite op_split by (try assumption; nia). rewrite op_split by (try assumption; nia).
+  rewrite op_split by (try assumption; lia). reflexivity.
+Qed.
+End Bitwise.
+
+Lemma and128 u v : wf128 u -> wf128 v ->
+  val128 (mk128 (Z.land (h1 u) (h1 v)) (Z.land (h0 u) (h0 v))) = Z.land (val128 u) (val128 v).
+Proof. intros. apply (op128 Z.land andb Z.land_spec eq_refl); assumption. Qed.
+Lemma or128 u v : wf128 u -> wf128 v ->
+  val128 (mk128 (Z.lor (h1 u) (h1 v)) (Z.lor (h0 u) (h0 v))) = Z.lor (val128 u) (val128 v).
+Proof. intros. apply (op128 Z.lor orb Z.lor_spec eq_refl); assumption. Qed.
+Lemma xor128 u v : wf128 u -> wf128 v ->
+  val128 (mk128 (Z.lxor (h1 u) (h1 v)) (Z.lxor (h0 u) (h0 v))) = Z.lxor (val128 u) (val128 v).
+Proof. intros. apply (op128 Z.lxor xorb Z.lxor_spec eq_refl); assumption. Qed.
+Lemma and256 u v : wf256 u -> wf256 v ->
+  val256 (mk256 (Z.land (q3 u) (q3 v)) (Z.land (q2 u) (q2 v)) (Z.land (q1 u) (q1 v)) (Z.land (q0 u) (q0 v))) = Z.land (val256 u) (val256 v).
+Proof. intros. apply (op256 Z.land andb Z.land_spec eq_refl); assumption. Qed.
+Lemma or256 u v : wf256 u -> wf256 v ->
+  val256 (mk256 (Z.lor (q3 u) (q3 v)) (Z.lor (q2 u) (q2 v)) (Z.lor (q1 u) (q1 v)) (Z.lor (q0 u) (q0 v))) = Z.lor (val256 u) (val256 v).
+Proof. intros. apply (op256 Z.lor orb Z.lor_spec eq_refl); assumption. Qed.
+Lemma xor256 u v : wf256 u -> wf256 v ->
+  val256 (mk256 (Z.lxor (q3 u) (q3 v)) (Z.lxor (q2 u) (q2 v)) (Z.lxor (q1 u) (q1 v)) (Z.lxor (q0 u) (q0 v))) = Z.lxor (val256 u) (val256 v).
+Proof. intros. apply (op256 Z.lxor xorb Z.lxor_spec eq_refl); assumption. Qed.
+Lemma not128 u : wf128 u -> val128 (mk128 (not64 (h1 u)) (not64 (h0 u))) = W * W - 1 - val128 u.
+Proof. destruct u as [a1 a0]. unfold wf128, val128, not64; cbn [h1 h0]. rewrite W_val. lia. Qed.
+Lemma not256 u : wf256 u -> val256 (mk256 (not64 (q3 u)) (not64 (q2 u)) (not64 (q1 u)) (not64 (q0 u))) = W4 - 1 - val256 u.
+Proof. destruct u as [a3 a2 a1 a0]. unfold wf256, val256, not64, W4, W2; cbn [q0 q1 q2 q3]. rewrite W_val. lia. Qed.
+
+(** casts: the limbs the casts keep (as in run128/run256) carry the value whenever it fits *)
+Lemma cast_256_to_128 u : wf256 u -> val256 u < W * W -> val128 (mk128 (q1 u) (q0 u)) = val256 u.
+Proof. destruct u as [a3 a2 a1 a0]. unfold wf256, val256, val128; cbn [q0 q1 q2 q3 h1 h0]. rewrite W_val. lia. Qed.
+Lemma cast_256_to_64 u : wf256 u -> val256 u < W -> q0 u = val256 u.
+Proof. destruct u as [a3 a2 a1 a0]. unfold wf256, val256; cbn [q0 q1 q2 q3]. rewrite W_val. lia. Qed.
+Lemma cast_128_to_64 u : wf128 u -> val128 u < W -> h0 u = val128 u.
+Proof. destruct u as [a1 a0]. unfold wf128, val128; cbn [h1 h0]. rewrite W_val. lia. Qed.
+Lemma cast_128_to_256 u : wf128 u -> val256 (mk256 0 0 (h1 u) (h0 u)) = val128 u.
+Proof. destruct u as [a1 a0]. unfold wf128, val256, val128; cbn [q0 q1 q2 q3 h1 h0]. rewrite W_val. lia. Qed.
+Lemma cast_64_to_256 x : val256 (mk256 0 0 0 x) = x.
+Proof. unfold val256; cbn [q0 q1 q2 q3]. lia. Qed.
+Lemma cast_64_to_128 x : val128 (mk128 0 x) = x.
+Proof. unfold val128; cbn [h1 h0]. lia. Qed.
